@@ -495,5 +495,9 @@ def run(run):
                                        'graphite2::Segment::m_numCharinfo'])
     c12.nulstop(run, fx)
     c12.countsync(run, fx)
+    try:
+        c12.textexec(run, fx)            # "exactly n char-infos ... in order ... strictly increasing code-unit offsets", decided for UTF-16/32 (shared with C12)
+    except AnalysisBroken as ex:
+        run.broken('NULSTOP', 'engine', str(ex))
     c11.advancebound(run, fx)
     c03.nomutpos(run, vm)
